@@ -5,10 +5,14 @@
 //   aparent rm|cm d0 d1 ...         fresh ACTIVE Array<r,double,true>, r = 1..3 (its views stay active)
 //   fparent d0 ...                  FixedArray<int,false,d0,...>: 4 | 3 4 | 3 3 | 2 3 4 | 2 3 4 5; the first successful
 //                                   operation is FixedArray's own member and returns an Array<r,int>
+//   efparent d0 ...                 FixedArray<int,false,..> 3 2 5 4 | 2 3 1 4 5 | 3 1 4 2 6 5 driven through its ELEMENT accessors only
+//   afparent d0 ...                 ACTIVE FixedArray<double,true,..> 4 | 3 4 | 2 3 4 | 3 2 5 4, element accessors only
 //   slice A0 A1 ...                 A = i:E | r:E,E | s:E,E,E | _
 //                                   E = k | eK (`end - K`) | end | (E+E) (E-E) (E*E) (E/E) (E>E: max) (E<E: min)
-//                                   (only scalar arguments: ELEMENT access, every argument passed as written, int or end-k)
+//                                   (only scalar arguments: ELEMENT access, every argument passed as written, int or end-k,
+//                                   ONE of them may be a rich expression: drv_views_el.h)
 //   subset E E ...  | idx E | T | permute p.. | diag k | subdiag b e | reshape d.. | softlink
+//   permuteE p.. (permute(const ExpressionSize<Rank>&)) | permuteV p.. (permute(i0,i1,...), ranks 2..6)
 //   cslice, csubset, cidx, cT, csoftlink, cix: the same member called through a const reference (const overload)
 //   contig                          is_contiguous()
 //   ix S0 S1 ...                    integer-vector indexing of the current view (state unchanged): drv_views_idx.h
@@ -109,6 +113,23 @@ int main() {
         delete cur; cur = 0;
         par.clear();
         nv = make_fixed(d, par.f1, par.f2, par.f2s, par.f3, par.f4);
+      }
+      if (!nv) { std::cout << "bad-op\n"; continue; }
+      cur = nv;
+      std::cout << cur->describe() << "\n";
+      continue;
+    }
+    if (w[0] == "efparent" || w[0] == "afparent") {
+      // FixedArrays (passive rank 4..6 / ACTIVE rank 1..4) driven through their element accessors only (drv_views_el.h)
+      std::vector<int> d(w.size() - 1);
+      bool ok = w.size() >= 2 && w.size() <= 7;
+      for (size_t k = 0; ok && k < d.size(); ++k) ok = parse_int(w[k + 1], d[k]);
+      VBase* nv = 0;
+      if (ok) {
+        delete cur; cur = 0;
+        par.clear();
+        if (w[0] == "afparent") { stack.new_recording(); nv = make_afixed(d); }
+        else nv = make_efixed(d);
       }
       if (!nv) { std::cout << "bad-op\n"; continue; }
       cur = nv;
